@@ -1,6 +1,7 @@
 """
-C11 — correspondence + search for `find_islands(region=…, wcs=…)` (and, thorough tier,
-`find_sources_in_image(mask=…)`).
+C11 — correspondence + search for `find_islands(region=…, wcs=…)` (and `find_sources_in_image(mask=…)`: a handful of
+runs in the quick tier — regions with holes cut by `Region.without`, given as a Region object and as a .mim
+file — many more in the thorough tier).
 
 The Lean side is C02's model with the region test (`Model.C11.findRestricted`); the theorems of
 `Properties/C11.lean` say it equals the unrestricted run filtered by "some own pixel centre is inside".
@@ -170,7 +171,8 @@ def gen_table_case(rng, small=False):
 
 def impl_table(c):
     im, bkg, rms, flood, seed, inside = base.arrays(c)
-    return base.run_impl(im, bkg, rms, flood, seed, region=TableRegion(inside), wcs=table_wcs())
+    return base.run_impl(im, bkg, rms, flood, seed, region=TableRegion(inside), wcs=table_wcs(),
+                         variant=base.variant_of(c))
 
 
 def fixed_cases():
@@ -219,8 +221,12 @@ def sky_header(rng, H, W):
 def make_region(spec):
     from AegeanTools.regions import Region
     reg = Region(maxdepth=spec['depth'])
-    if spec['shape'] == 'circle':
+    if spec['shape'] in ('circle', 'circle-hole'):
         reg.add_circles(np.radians(spec['ra']), np.radians(spec['dec']), np.radians(spec['radius']))
+        for h in spec.get('holes', []):        # the usual way of excluding a troublesome source: Region.without
+            hole = Region(maxdepth=spec['depth'])
+            hole.add_circles(np.radians(h['ra']), np.radians(h['dec']), np.radians(h['radius']))
+            reg.without(hole)
     else:
         reg.add_poly(np.radians(np.array(spec['poly'])))
     return reg
@@ -289,7 +295,8 @@ def impl_sky(c):
     with warnings.catch_warnings():
         warnings.simplefilter('ignore')
         wcs = WCSHelper.from_header(header_from_vals(c['header']))
-    return base.run_impl(im, bkg, rms, flood, seed, region=make_region(c['region']), wcs=wcs)
+    return base.run_impl(im, bkg, rms, flood, seed, region=make_region(c['region']), wcs=wcs,
+                         variant=base.variant_of(c))
 
 
 def impl_any(c):
@@ -315,6 +322,9 @@ def evaluate(ctx, cases, use_lean=True):
     for c, o in zip(cases, outs):
         try:
             impl = impl_any(c)
+        except base.InputMutated as e:
+            base.report_mutation(ctx, c, e, dict(region=True))
+            impl = e.canon
         except Exception as e:
             impl = f"{type(e).__name__}: {e}"
         model = None
@@ -366,8 +376,9 @@ def run(ctx):
     ctx.count('ambiguous-skipped', amb)
     for lo in range(0, len(cases), 4000):
         evaluate(ctx, cases[lo:lo + 4000])
-    if not ctx.quick:
-        finder_region_runs(ctx, rng, 60)
+    # through the public entry point: find_sources_in_image(mask=Region | .mim path) vs the filtered unrestricted run
+    finder_hole_runs(ctx, rng, 6 if ctx.quick else 40)
+    finder_region_runs(ctx, rng, 3 if ctx.quick else 60)
 
 
 def search(ctx):
@@ -419,9 +430,13 @@ def finder_region_one(ctx, c):
         return
     allw, _ = base.oracle(im, bkg, rms, flood, seed, None)
     want = [wd for wd in allw if any(ins[p] for p in wd[1])]
+    mask_arg = reg
+    if c.get('as_file'):                      # the region given as a .mim file, as `aegean --region` does
+        mask_arg = os.path.join(ctx.tmpdir(), f"region_{base.case_key(c)}.mim")
+        reg.save(mask_arg)
     try:
         comps0, isles0 = base.finder_sources(path, flood, seed)
-        comps1, isles1 = base.finder_sources(path, flood, seed, mask=reg)
+        comps1, isles1 = base.finder_sources(path, flood, seed, mask=mask_arg)
     except Exception as e:
         ctx.fail('spec', dict(c, pretty=base.pretty(c)), f"find_sources_in_image raised {type(e).__name__}: {e}",
                  dict(site='find_sources_in_image', clause='raises', region=True))
@@ -446,10 +461,63 @@ def finder_region_one(ctx, c):
         ctx.fail('spec', dict(c, pretty=base.pretty(c)), bad,
                  dict(site='find_sources_in_image', clause='restricted-eq-filter', region=True))
     ctx.count('finder-region-run')
+    ctx.count('finder-region:' + c['region']['shape'] + ('-file' if c.get('as_file') else '-object'))
     ctx.count('finder-components', len(comps1))
-    nt = 0 < len(want) < len(allw) and any(not all(ins[p] for p in wd[1]) for wd in want)
+    H, W = im.shape
+    perimeter_inside = bool(ins[0, :].all() and ins[-1, :].all() and ins[:, 0].all() and ins[:, -1].all())
+    if perimeter_inside and len(want) < len(allw):
+        ctx.count('finder-perimeter-inside-but-island-dropped')
+    nt = 0 < len(want) < len(allw) and (any(not all(ins[p] for p in wd[1]) for wd in want) or perimeter_inside)
     ctx.case(dict(kind='finder', H=c['H'], W=c['W'], islands=len(isles0), kept=len(isles1), components=len(comps1)),
              nontrivial_key=('finder', base.case_key(c)) if nt else None)
+
+
+def finder_hole_runs(ctx, rng, n):
+    """regions that contain the whole image perimeter but not all of the image: a big circle from which
+    small circles around sources were removed with Region.without; islands inside a hole must go"""
+    from astropy.wcs import WCS
+    from astropy.io import fits
+    h = fits.Header()
+    for k, v in base.HDR.items():
+        h[k] = v
+    with warnings.catch_warnings():
+        warnings.simplefilter('ignore')
+        w = WCS(h, naxis=2)
+    done = tries = 0
+    while done < n and tries < 4 * n:
+        tries += 1
+        H, W = int(rng.integers(24, 33)), int(rng.integers(24, 33))
+        yy, xx = np.mgrid[0:H, 0:W]
+        im = np.zeros((H, W))
+        # compact sources well away from the border; the first one (or two) get a hole
+        pos = []
+        nsrc = int(rng.integers(2, 5))
+        nh = 1 if (nsrc < 3 or rng.random() < 0.6) else 2
+        for j in range(nsrc):
+            m = 10 if j < nh else 4          # sources that get a hole stay clear of the image border
+            for _t in range(20):
+                r0, c0 = rng.uniform(m, H - 1 - m), rng.uniform(m, W - 1 - m)
+                if all((r0 - a) ** 2 + (c0 - b) ** 2 > 64 for a, b in pos):
+                    pos.append((r0, c0))
+                    break
+        for (r0, c0) in pos:
+            amp = float(rng.choice([12.0, 16.0, 20.0])) * (1 if rng.random() < 0.8 else -1)
+            sg = rng.uniform(0.7, 0.9)
+            im += amp * np.exp(-0.5 * (((yy - r0) / sg) ** 2 + ((xx - c0) / sg) ** 2))
+        nh = min(nh, len(pos))
+        holes = []
+        for (r0, c0) in pos[:nh]:
+            ra, dec = w.wcs_pix2world([[c0, r0]], 0)[0]
+            holes.append(dict(ra=float(ra), dec=float(dec), radius=float(0.01 * rng.uniform(4.5, 6.0))))
+        rac, decc = w.wcs_pix2world([[W / 2.0, H / 2.0]], 0)[0]
+        spec = dict(shape='circle-hole', ra=float(rac), dec=float(decc), radius=float(rng.uniform(0.6, 1.2)),
+                    depth=12, holes=holes)
+        c = base.mk_case('finder', im, np.zeros_like(im), np.ones_like(im), 4.0, 5.0,
+                         extra=dict(finder=True, region=spec, as_file=bool(done % 2)))
+        n0 = ctx.histogram.get('finder-region-run', 0)
+        finder_region_one(ctx, c)
+        if ctx.histogram.get('finder-region-run', 0) > n0:
+            done += 1
 
 
 def finder_region_runs(ctx, rng, n):
@@ -461,7 +529,7 @@ def finder_region_runs(ctx, rng, n):
     with warnings.catch_warnings():
         warnings.simplefilter('ignore')
         w = WCS(h, naxis=2)
-    for _ in range(n):
+    for _k in range(n):
         im = base.blob_image(rng, nblob=int(rng.integers(3, 7)))
         H, W = im.shape
         r0, c0 = rng.uniform(0, H - 1), rng.uniform(0, W - 1)
@@ -469,5 +537,5 @@ def finder_region_runs(ctx, rng, n):
         spec = dict(shape='circle', ra=float(ra0), dec=float(dec0), radius=float(0.01 * rng.uniform(2, 12)),
                     depth=int(rng.choice([10, 11, 12])))
         c = base.mk_case('finder', im, np.zeros_like(im), np.ones_like(im), 4.0, 5.0,
-                         extra=dict(finder=True, region=spec))
+                         extra=dict(finder=True, region=spec, as_file=bool(_k % 2)))
         finder_region_one(ctx, c)
